@@ -238,12 +238,15 @@ def complete (x : Indiv) : Bool := !(x.alleles.any (· == 9)) && !x.nodata
 def completeOfPop (inds : List Indiv) (p : Nat) : List Indiv :=
   inds.filter fun x => x.pop == some p && complete x
 
-/-- calls from the chosen samples `idx` (positions in the list of complete samples) -/
-def chosenCalls (gts : List Indiv) (idx : List Nat) : Nat × Nat :=
+/-- the accumulation `refcalls += gt[::2].count('0'); altcalls += gt[::2].count('1')` over the chosen samples -/
+def chosenCallsFrom (acc : Nat × Nat) (gts : List Indiv) (idx : List Nat) : Nat × Nat :=
   idx.foldl (fun acc ii =>
     match gts[ii]? with
     | some x => (acc.1 + countAllele 0 x.alleles, acc.2 + countAllele 1 x.alleles)
-    | none => acc) (0, 0)
+    | none => acc) acc
+
+/-- calls from the chosen samples `idx` (positions in the list of complete samples) -/
+def chosenCalls (gts : List Indiv) (idx : List Nat) : Nat × Nat := chosenCallsFrom (0, 0) gts idx
 
 /-- populations of `subsample` in the order in which their first sample column appears -/
 def popOrder (inds : List Indiv) (want : List (Nat × Nat)) : List Nat :=
